@@ -66,8 +66,18 @@ def _d(h, cls, state):
     deserialization. For ASTs, this does not work.
     """
     op, args, length, variables, symbolic, annotations = state
+    # the state holds exactly the annotations of the node (those relocated from its children included): they must not
+    # be collected, deduplicated and reordered a second time
     return cls.__new__(
-        cls, op, args, length=length, variables=variables, symbolic=symbolic, annotations=annotations, hash=h
+        cls,
+        op,
+        args,
+        length=length,
+        variables=variables,
+        symbolic=symbolic,
+        annotations=annotations,
+        hash=h,
+        skip_child_annotations=True,
     )
 
 
